@@ -28,6 +28,8 @@ def main():
         if not os.path.exists(outd):
             continue  # a round may cover only some of the properties
         for x, letter in zip("ABCDEFGH"[:len(letters)], letters):
+            if not os.path.exists(os.path.join(outd, x + ".diff")):
+                continue  # the author delivered fewer changes for this property
             d = os.path.join(V, "seeded", "%s-%s" % (pid, letter))
             os.makedirs(d, exist_ok=True)
             shutil.copy(os.path.join(outd, x + ".diff"), os.path.join(d, "patch.diff"))
